@@ -99,11 +99,15 @@ namespace pika::threads::detail {
 
         while (!exit_funcs_.empty())
         {
+            // Take the callback off the list before the lock is released: a callback that is
+            // registered while this one runs is pushed to the front and must not be removed in
+            // its place.
+            auto f = std::move(exit_funcs_.front());
+            exit_funcs_.pop_front();
             {
                 pika::detail::unlock_guard<std::unique_lock<pika::detail::spinlock>> ul(l);
-                if (!exit_funcs_.front().empty()) exit_funcs_.front()();
+                if (!f.empty()) f();
             }
-            exit_funcs_.pop_front();
         }
         ran_exit_funcs_ = true;
     }
